@@ -24,26 +24,42 @@ fn tc(nfailed: usize) -> TestCase {
     t
 }
 
-/// C06 (test): Err => 1; Ok => 7 iff some test case has a failed expectation, else 0
+/// C06 (test): an error in a test file exits 1
 #[cfg_attr(kani, kani::proof)]
+#[cfg_attr(kani, kani::unwind(3))]
 #[cfg_attr(verif_replay, test)]
-fn k_test_result_exit_code() {
+fn k_test_result_err() {
     lib_only!();
     let e = TestResult::Err(Err { rule_file: String::new(), error: String::new(), time: 0 });
     kani::assert(e.get_exit_code() == 1, "an error in a test file exits 1");
     std::mem::forget(e);
-    let mut ncases = 0usize;
-    while ncases <= 2 {
-        let f0: usize = kani::any();
-        let f1: usize = kani::any();
-        kani::assume(f0 <= 2 && f1 <= 2);
-        let mut cases = Vec::with_capacity(2);
-        if ncases >= 1 { cases.push(tc(f0)); }
-        if ncases >= 2 { cases.push(tc(f1)); }
-        let r = TestResult::Ok(Ok { rule_file: String::new(), test_cases: cases, time: 0 });
-        let any_failed = (ncases >= 1 && f0 > 0) || (ncases >= 2 && f1 > 0);
-        kani::assert(r.get_exit_code() == if any_failed { 7 } else { 0 }, "7 iff some expectation mismatched, else 0");
-        std::mem::forget(r);
-        ncases += 1;
-    }
 }
+
+fn result_shape(ncases: usize) {
+    let f0: usize = kani::any();
+    let f1: usize = kani::any();
+    kani::assume(f0 <= 2 && f1 <= 2);
+    let mut cases = Vec::with_capacity(2);
+    if ncases >= 1 { cases.push(tc(f0)); }
+    if ncases >= 2 { cases.push(tc(f1)); }
+    let r = TestResult::Ok(Ok { rule_file: String::new(), test_cases: cases, time: 0 });
+    let any_failed = (ncases >= 1 && f0 > 0) || (ncases >= 2 && f1 > 0);
+    kani::assert(r.get_exit_code() == if any_failed { 7 } else { 0 }, "7 iff some expectation mismatched, else 0");
+    std::mem::forget(r);
+}
+
+/// C06 (test): Ok => 7 iff some test case has a failed expectation, else 0
+macro_rules! result_harness {
+    ($name:ident, $n:expr) => {
+        #[cfg_attr(kani, kani::proof)]
+        #[cfg_attr(kani, kani::unwind(4))]
+        #[cfg_attr(verif_replay, test)]
+        fn $name() {
+            lib_only!();
+            result_shape($n);
+        }
+    };
+}
+result_harness!(k_test_result_0, 0usize);
+result_harness!(k_test_result_1, 1usize);
+result_harness!(k_test_result_2, 2usize);
